@@ -192,9 +192,11 @@ def dropped_rule(repo, res, inv):
             for path in paths:
                 if path[-1][0] == "raise":
                     continue
-                facts = dict((t, tr) for t, tr, _ in path_facts(path))
-                if star == "*" and facts.get(f"len({pname}) == 0") is True:
-                    continue
+                from engine.sem import canon_facts
+
+                cf = canon_facts(path, fn)
+                if star == "*" and ((f"len({pname}) == 0", True) in cf or (pname, False) in cf):
+                    continue  # nothing was passed through the catch-all on this path
                 sites = [c for c in path_calls(path) if _is_compute_call(c, fn, helpers)]
                 for c in sites:
                     n_compute += 1
